@@ -1519,17 +1519,19 @@ def derived_values(named):
     return out
 
 
-def law_battery(ck, it, named, context, max_report=1):
+def law_battery(ck, it, named, context, max_report=1, prefix=""):
     """Direct oracles on the interpreter alone, around the given values: reflexivity, symmetry,
     transitivity over all derived values, and agreement of == with equality of the canonical trees
     the interpreter itself prints.  Reports the first failing law as a violation whose replay holds
     the concrete (closed) values.  Returns the number of violations reported."""
     vals = derived_values(named)
     n = len(vals)
-    exprs = ["(%s == %s)" % (vals[i][1], vals[j][1]) for i in range(n) for j in range(n)]
+    # `prefix`: let-bindings shared by all the values (contract aliases must be the SAME binding on
+    # both operands for the evaluator to recognise them as equal contracts)
+    exprs = ["(%s(%s == %s))" % (prefix, vals[i][1], vals[j][1]) for i in range(n) for j in range(n)]
     outs = [norm_impl(o or "<none>") for o in it.eval_many(exprs)]
     itf = Interp(ck, flags="full", batch=it.batch)
-    trees = [norm_impl(o or "<none>") for o in itf.eval_many([v[1] for v in vals])]
+    trees = [norm_impl(o or "<none>") for o in itf.eval_many(["(%s%s)" % (prefix, v[1]) for v in vals])]
     it.programs += itf.programs
     ck.count("law_battery_equalities", len(exprs))
     M = [[outs[i * n + j] for j in range(n)] for i in range(n)]
@@ -1538,13 +1540,13 @@ def law_battery(ck, it, named, context, max_report=1):
 
     def report(key, text, i, j, k=None):
         k = j if k is None else k
-        rep = {"kind": "equality", "a": vals[i][1], "b": vals[j][1], "c": vals[k][1], "law": key,
+        rep = {"kind": "equality", "prefix": prefix, "a": vals[i][1], "b": vals[j][1], "c": vals[k][1], "law": key,
                "labels": [vals[i][0], vals[j][0], vals[k][0]], "context": context,
                "answers": {"a==b": M[i][j], "b==a": M[j][i], "b==c": M[j][k], "a==c": M[i][k], "a==a": M[i][i]},
                "trees": {"a": trees[i], "b": trees[j], "c": trees[k]}, "key": key,
                "how_to_replay": "./verif check C16 --replay <this file>"}
         found.append(key)
-        ck.violation(key, text + " -- a = %s ; b = %s%s" % (vals[i][1][:160], vals[j][1][:160], (" ; c = " + vals[k][1][:160]) if k != j else ""), rep)
+        ck.violation(key, text + " --%s a = %s ; b = %s%s" % ((" with " + prefix[:200]) if prefix else "", vals[i][1][:160], vals[j][1][:160], (" ; c = " + vals[k][1][:160]) if k != j else ""), rep)
 
     for i in range(n):
         if len(found) >= max_report:
@@ -1646,6 +1648,158 @@ def run_changing_contracts(ck, it, n, label="value-changing-contracts"):
     return go
 
 
+# ---- both operands under the SAME (or an equal) pending contract
+ABS_CTR = "(std.contract.custom (fun _l v => if std.is_number v then 'Ok (std.number.abs v) else 'Error { message = \"not a number\" }))"
+
+
+def gen_shared_case(rng):
+    """x and y are containers that both carry a pending contract recognised as the same one (same
+    let-bound alias, field of a record of contracts, factory instance, alias of the whole container
+    contract, or an equal separately bound / inline one); z is the same data written out.
+    Returns {prefix, x, y, z, expect} with expect in {"same", "diff", "blame"}."""
+    kind = rng.weighted([("default", 5), ("abs", 3), ("number", 2)])
+    k, v = rng.choice(["a", "b"]), rng.range(0, 3)
+    inner = rng.chance(1, 4)                 # elements are themselves arrays, contract Array C
+    blame = rng.chance(1, 6)
+    differ = (not blame) and rng.chance(1, 4)
+    n = rng.range(1, 4)
+
+    def rec(e):
+        return "{" + ", ".join("%s = %d" % kv for kv in sorted(e.items())) + "}"
+
+    def elem(mode):
+        """(x raw, y raw, z written out) for one element"""
+        if mode == "b":
+            bad = {"default": "5", "abs": "\"s\"", "number": "\"s\""}[kind]
+            return bad, bad, bad
+        if kind == "default":
+            e = {key: rng.range(0, 3) for key in ["a", "b", "c"] if rng.chance(1, 2)}
+            e.pop(k, None)
+            full = dict(e, **{k: v})
+            if mode == "a":
+                l, r = (e, full) if rng.chance(1, 2) else (full, e)
+                return rec(l), rec(r), rec(full)
+            if mode == "c":
+                other = dict(full, c=full.get("c", 0) + 4)
+                return rec(e), rec(other), rec(full)
+            same = e if rng.chance(1, 2) else full
+            return rec(same), rec(same), rec(full)
+        m = rng.range(1, 5)
+        if kind == "abs" and mode == "a":
+            l, r = ("(-%d)" % m, "%d" % m) if rng.chance(1, 2) else ("%d" % m, "(-%d)" % m)
+            return l, r, "%d" % m
+        if mode == "c":
+            return "%d" % m, "%d" % (m + 1), "%d" % m
+        if kind == "abs" and rng.chance(1, 2):
+            return "(-%d)" % m, "(-%d)" % m, "%d" % m
+        return "%d" % m, "%d" % m, "%d" % m
+
+    modes = [rng.choice(["a", "a", "d"]) if kind != "number" else "d" for _ in range(n)]
+    if blame:
+        modes[rng.below(n)] = "b"
+    if differ:
+        modes[rng.below(n)] = "c"
+    elems = [elem(m) for m in modes]
+    if inner:                                  # one more array level around every element
+        elems = [("[%s]" % a, "[%s]" % b, "[%s]" % c) for a, b, c in elems]
+    cdef = {"default": "{%s | default = %d, ..}" % (k, v), "abs": ABS_CTR, "number": "Number"}[kind]
+    if inner:
+        cdef = "(Array %s)" % cdef
+    alias = rng.below(6)
+    prefix, lc, rc = "", "C", "C"
+    if alias == 0:
+        prefix = "let C = %s in " % cdef
+    elif alias == 1:
+        prefix, lc, rc = "let M = { C = %s, other = Number } in " % cdef, "M.C", "M.C"
+    elif alias == 2:
+        if kind == "default" and not inner:
+            prefix = "let mk = fun d => {%s | default = d, ..} in let C = mk %d in " % (k, v)
+        else:
+            prefix = "let mk = fun _u => %s in let C = mk null in " % cdef
+    elif alias == 3:
+        prefix, rc = "let C = %s in let C2 = %s in " % (cdef, cdef), "C2"
+    elif alias == 4:
+        prefix = "let C = %s in " % cdef       # + an alias of the whole container contract below
+    else:
+        lc = rc = cdef
+    container = rng.weighted([("array", 4), ("field", 3), ("dict|", 2), ("dict:", 1)])
+    keys = ["p", "q", "r", "s"][:n]
+    xs, ys, zs = [e[0] for e in elems], [e[1] for e in elems], [e[2] for e in elems]
+    arr = lambda l: "[" + ", ".join(l) + "]"
+    dic = lambda l: "{" + ", ".join("%s = %s" % kv for kv in zip(keys, l)) + "}"
+    if container == "array":
+        if alias == 4:
+            prefix += "let K = Array C in "
+            x, y = "(%s | K)" % arr(xs), "(%s | K)" % arr(ys)
+        else:
+            x, y = "(%s | Array %s)" % (arr(xs), lc), "(%s | Array %s)" % (arr(ys), rc)
+        z = arr(zs)
+    elif container == "field":
+        if alias == 4 or rng.chance(1, 2):
+            prefix += "let Schema = {k | Array %s, ..} in " % lc
+            x, y = "({k = %s} | Schema)" % arr(xs), "({k = %s} | Schema)" % arr(ys)
+        else:
+            x, y = "({k = %s} | {k | Array %s, ..})" % (arr(xs), lc), "({k = %s} | {k | Array %s, ..})" % (arr(ys), rc)
+        z = "{k = %s}" % arr(zs)
+    else:
+        sep = "|" if container == "dict|" else ":"
+        if alias == 4:
+            prefix += "let K = {_ %s C} in " % sep
+            x, y = "(%s | K)" % dic(xs), "(%s | K)" % dic(ys)
+        else:
+            x, y = "(%s | {_ %s %s})" % (dic(xs), sep, lc), "(%s | {_ %s %s})" % (dic(ys), sep, rc)
+        z = dic(zs)
+    shape = rng.below(5)
+    wrap = [lambda t: t, lambda t: "{u = %s, w = 1}" % t, lambda t: "('T %s)" % t, lambda t: "[%s, 0]" % t, lambda t: "{g = {h = %s}}" % t][shape]
+    return {"prefix": prefix, "x": wrap(x), "y": wrap(y), "z": wrap(z),
+            "expect": "blame" if blame else "diff" if differ else "same",
+            "tag": "%s/%s/alias%d%s" % (kind, container, alias, "/inner" if inner else "")}
+
+
+def run_shared_contracts(ck, it, rng, n, label="shared-contracts"):
+    """Laws and canonical-tree agreement on the interpreter alone, for operands under equal pending
+    contracts (validating, default-filling, normalising)."""
+    cases = [gen_shared_case(rng) for _ in range(n)]
+    law = [c for c in cases if c["expect"] != "blame"]
+    bl = [c for c in cases if c["expect"] == "blame"]
+    body = "let x = %s in let y = %s in let z = %s in "
+    outs = it.eval_many(["(%s%s[x == y, y == x, x == z, z == x, z == y, y == z, x == x, y == y])" % (c["prefix"], body % (c["x"], c["y"], c["z"])) for c in law])
+    itf = Interp(ck, flags="full", batch=it.batch)
+    trees = itf.eval_many(["(%s[%s, %s, %s])" % (c["prefix"], c["x"], c["y"], c["z"]) for c in law])
+    bouts = it.eval_many(["(%s(%s == %s))" % (c["prefix"], c["x"], c["y"]) for c in bl], singles=range(len(bl)))
+    it.programs += itf.programs
+    bad = 0
+    for c, o, t in zip(law, outs, trees):
+        ck.case(key=c["prefix"] + c["x"] + c["y"], nontrivial=True)
+        ck.hist("equality_cases", label)
+        ck.hist("shared_contract_shapes", c["tag"])
+        o = norm_impl(o or "<none>")
+        same = c["expect"] == "same"
+        ts = split_top(t[4:-1]) if t and t.startswith("OK [") else None
+        ok = o.startswith("OK [") and ts is not None and len(ts) == 3
+        if ok:
+            xy, yx, xz, zx, zy, yz, xx, yy = [b == "true" for b in split_top(o[4:-1])]
+            ok = (xx and yy and xz and zx and xy == same and yx == same and zy == same and yz == same
+                  and ts[0] == ts[2] and (ts[0] == ts[1]) == same)
+        if not ok:
+            bad += 1
+            if bad <= 2:
+                if not law_battery(ck, it, [("x", c["x"]), ("y", c["y"]), ("z", c["z"])], label + " " + c["tag"], prefix=c["prefix"]):
+                    ck.violation("eq-pending-contracts", "== under equal pending contracts: [x==y, y==x, x==z, z==x, z==y, y==z, x==x, y==y] = %s, trees %s, expected %s -- with %s x = %s ; y = %s ; z = %s" % (
+                        o, t, c["expect"], c["prefix"], c["x"], c["y"], c["z"]),
+                        {"kind": "equality", "prefix": c["prefix"], "a": c["x"], "b": c["y"], "c": c["z"], "key": "eq-pending-contracts"})
+    for c, o in zip(bl, bouts):
+        ck.case(key=c["prefix"] + c["x"] + c["y"], nontrivial=True)
+        ck.hist("equality_cases", label + ":blame")
+        ck.hist("shared_contract_shapes", c["tag"])
+        o = norm_impl(o or "<none>")
+        if o != "ERR Blame":
+            ck.violation("eq-contract-not-applied", "== answered `%s` although the pending contract of both operands fails on an element: with %s a = %s ; b = %s" % (
+                o, c["prefix"], c["x"][:200], c["y"][:200]),
+                {"kind": "equality", "prefix": c["prefix"], "a": c["x"], "b": c["y"], "c": c["y"], "expected": "ERR Blame", "key": "eq-contract-not-applied"})
+    return bad
+
+
 def xv_permute(rng, x):
     k = x[0]
     if k == "v":
@@ -1670,6 +1824,8 @@ def search_equality(ck, it, rng, disagreements, label):
         hits += law_battery(ck, it, named, "search around a model/interpreter disagreement in stream " + label)
     if not hits:
         hits += run_changing_contracts(ck, it, 1200, "search:value-changing-contracts")(rng.fork())
+    if not hits:
+        hits += run_shared_contracts(ck, it, rng.fork(), 1200, "search:shared-contracts")
     ck.coverage["search"] = "ran after %d model/interpreter disagreement(s) on ==: %s" % (
         len(disagreements), "a law fails on the interpreter" if hits else "no law failure found on the interpreter")
 
@@ -1852,6 +2008,7 @@ def run(ck):
     run_xequality(ck, it, exe_model, gen_xpairs(rng.fork(), 1500 if quick else 30000), "extended")
     # 6. pending contracts that change the value (defaults): laws and canonical-tree agreement on the interpreter alone
     run_changing_contracts(ck, it, 400 if quick else 8000)(rng.fork())
+    run_shared_contracts(ck, it, rng.fork(), 500 if quick else 10000)
     ck.coverage["interpreter_programs"] = it.programs
     ck.coverage["rule"] = ("numeric: every p/q with |p|<=%d, q<=%d in every spelling (fraction, integer, decimal, exponent-, exponent+, leading zeros, E+0, leading dot) "
                            "x unary std functions; pairs x {+,-,*,/,%%,<,<=,>,>=,==,!=,min,max,compare,pow} (thorough: all pairs; quick: seeded sample); "
@@ -1884,14 +2041,21 @@ def replay_case(ck, it, exe_model, obj):
         t = tuple(tupleize(x) for x in obj["triple"])
         run_equality(ck, it, exe_model, [t], "replay", annotate_rng=core.SplitMix64(obj.get("annotate_seed", 1)) if obj.get("annotate") else None)
     elif kind == "equality":
-        outs = it.eval_many(["let A = %s in let B = %s in let C = %s in [A == B, B == A, B == C, A == C, A == A]" % (obj["a"], obj["b"], obj["c"])], singles=[0])
+        pre = obj.get("prefix", "")
+        if obj.get("expected") == "ERR Blame":
+            o = norm_impl(it.eval_many(["(%s(%s == %s))" % (pre, obj["a"], obj["b"])], singles=[0])[0] or "<none>")
+            ck.case(key=obj["a"] + obj["b"])
+            if o != "ERR Blame":
+                ck.violation(obj.get("key", "eq-contract-not-applied"), "== answered `%s` although a pending contract fails on the operands" % o, obj)
+            return
+        outs = it.eval_many(["%slet A' = %s in let B' = %s in let C' = %s in [A' == B', B' == A', B' == C', A' == C', A' == A']" % (pre, obj["a"], obj["b"], obj["c"])], singles=[0])
         ck.case(key=obj["a"] + obj["b"])
         o = outs[0]
         if not o.startswith("OK ["):
             ck.violation(obj.get("key", "eq-error"), "== raised " + o, obj)
         else:
             ab, ba, bc, ac, aa = [v == "true" for v in split_top(o[4:-1])]
-            t = Interp(ck, flags="full").eval_many(["[%s, %s]" % (obj["a"], obj["b"])], singles=[0])[0]
+            t = Interp(ck, flags="full").eval_many(["(%s[%s, %s])" % (pre, obj["a"], obj["b"])], singles=[0])[0]
             ts = split_top(t[4:-1]) if t and t.startswith("OK [") else None
             if not aa or ab != ba or (ab and bc and not ac) or (ts is not None and len(ts) == 2 and (ts[0] == ts[1]) != ab):
                 ck.violation(obj.get("key", "eq-laws"), "equality laws fail: [a==b, b==a, b==c, a==c, a==a] = %s, trees of a, b: %s" % (o, t), obj)
